@@ -41,6 +41,20 @@ def put(s, name, body):
     if b not in s:
         return s
     return s[:s.index(b) + len(b)] + "\n" + body + "\n" + s[s.index(e):]
+claims = json.load(open(os.path.join(ROOT, "tools", "claims.json")))
+rows = ["| property | theorems (Props/Cxx.lean) | what is proved / how it is tied (MANIFEST level text) | not proved / trusted |\n|---|---|---|---|"]
+for pid in sorted(k for k in claims if re.fullmatch(r"C\d\d", k)):
+    c = claims[pid]
+    if c.get("not_applicable"):
+        rows.append(f"| {pid} | – | not applicable: {c['not_applicable']} | |")
+        continue
+    n = 0
+    pd = os.path.join(ROOT, "lean", "TmVerif", "Props")
+    for fn in os.listdir(pd):
+        if fn.startswith(pid) and fn.endswith(".lean"):
+            n += len(re.findall(r"^theorem\s+" + pid + r"_", open(os.path.join(pd, fn)).read(), re.M))
+    rows.append(f"| {pid} | {n} | {c['text'].replace('|', '/')} | {c['note'].replace('|', '/')} |")
+s = put(s, "SUMMARY", "\n".join(rows))
 s = put(s, "FINDINGS", tables1)
 s = put(s, "SEEDED", tables2)
 open(p, "w").write(s)
